@@ -35,6 +35,12 @@ def append_marker(cfg, marker='m'):
   setattr(cfg, key, (cur if isinstance(cur, list) else []) + [marker])
 
 
+def store_items(cfg, items=None):
+  """Stores the argument object itself (by reference), as user fiddlers commonly do."""
+  key = 'e' if cfg.__fn_or_cls__ is things.h1 else 'child'
+  setattr(cfg, key, items)
+
+
 # non-mutating fiddlers (return a new Buildable)
 def with_first(cfg, value=7):
   key = 'a' if cfg.__fn_or_cls__ is things.h1 else 'x'
@@ -46,5 +52,5 @@ def fresh_copy(cfg):
 
 
 BASES = {'base_a': base_a, 'base_b': base_b}
-FIDDLERS = {'set_y': set_y, 'double_first': double_first, 'append_marker': append_marker,
+FIDDLERS = {'set_y': set_y, 'double_first': double_first, 'append_marker': append_marker, 'store_items': store_items,
             'with_first': with_first, 'fresh_copy': fresh_copy}
